@@ -8,7 +8,7 @@ From Verif Require Import lib.Wire c03.Int64 c03.Model c03.Spec c03.Proofs_Int64
      c03.Proofs_Frames3 c03.Proofs_Kill c03.Proofs_OpsMem c03.Proofs_Done c03.Proofs_OpsDone c03.Proofs_OpsNew
      c03.Proofs_OpsOpen c03.Proofs_Hist c03.Proofs_Mon c03.Proofs_Link2 c03.Proofs_Transfer c03.Proofs_OpsRepar
      c03.Proofs_SetPeer c03.Proofs_Hist2 c03.Proofs_Mon2 c03.Proofs_Keys c03.Proofs_Refs c03.Proofs_RefInv c03.Proofs_GC
-     c03.Proofs_Prio c03.Proofs_Cap c03.Proofs_CapInv c03.Proofs_Just c03.Proofs_Just2.
+     c03.Proofs_Prio c03.Proofs_Cap c03.Proofs_CapInv c03.Proofs_Just c03.Proofs_Just2 c03.Proofs_Ans c03.Proofs_Ans2.
 Import ListNotations.
 Local Open Scope Z_scope.
 
@@ -152,11 +152,13 @@ Proof.
   assert (Cp : wf_opF c st a o -> forall i0 inb usefd ip, o = OOpenConn i0 inb usefd (Some ip) -> snd (step c st o) = 0 ->
             cap_ok c (open_ips (anextT c st a o) false) ip = true).
   { intros Wf. destruct IG as (IL & _ & _ & _ & Ci). apply (cap_step c st a o LO IL Ci). destruct o; exact Wf. }
-  destruct (step c st o) as [st' cls] eqn:Es. cbn [fst snd] in Hi, Cp, Js.
+  assert (As : wf_opF c st a o -> answer_ok a o (snd (step c st o)) = true).
+  { intros Wf. destruct IG as (IL & _). apply (ans_step c st a o LO IL). destruct o; exact Wf. }
+  destruct (step c st o) as [st' cls] eqn:Es. cbn [fst snd] in Hi, Cp, Js, As.
   cbn [callers_run mon_run_gen] in *.
   destruct (caller_ok a o && no_overflow m o) eqn:C; [|discriminate].
   apply andb_true_iff in C. destruct C as [C1 C2].
-  pose proof (wfF_of_bool c st a m o IG L C1 C2 Sh1) as Wf. specialize (Hd Wf). specialize (Hi Wf). specialize (Cp Wf). specialize (Js Wf).
+  pose proof (wfF_of_bool c st a m o IG L C1 C2 Sh1) as Wf. specialize (Hd Wf). specialize (Hi Wf). specialize (Cp Wf). specialize (Js Wf). specialize (As Wf).
   destruct Hd as (pre & post & El & Hm).
   set (x := model_obs st st' o cls) in *. set (m' := apply_delta m (o_delta x)) in *.
   assert (L' : forall t, ostat m' t = use_of (scopes st') t) by (apply obs_follows, L).
@@ -175,7 +177,8 @@ Proof.
   { apply Ms.
     - intros _ t sz prio Eo C0 y Hy. apply (Pr t sz prio Eo Wf C0 m' L' y Hy).
     - intros _ Cj. apply Js, Cj.
-    - intros _ i0 inb usefd ip Eo C0. apply (Cp i0 inb usefd ip Eo C0). }
+    - intros _ i0 inb usefd ip Eo C0. apply (Cp i0 inb usefd ip Eo C0).
+    - intros _. exact As. }
   rewrite Ms0 in Cr. rewrite Msk.
   destruct (IH st' _ m' (i + 1) LO Hi L' Sh2 Cr) as [M Wh]. split; [exact M | split; [exact Wf | exact Wh]].
 Qed.
